@@ -253,6 +253,9 @@ func (t *Table) Delete(path *Path) {
 			}
 			if len(routesNow) < len(routes) {
 				t.routes[targetKey] = routesNow
+				// keep the persisted route list in step, otherwise a reload
+				// resurrects routes whose path is gone
+				_ = t.store.Put(routePrefix+target.String(), routesNow)
 			}
 		}
 	})
